@@ -24,7 +24,7 @@ ASSUMPTIONS = [
     'two-layer smoothing window is given in percent of the layer count (0-100)',
     'column sums rtol 1e-12; profile-range clauses rtol 1e-9 (log-space moving average)',
 ]
-REQUIRED = {'exact-unity': 0.2, 'deactivated-molecule': 0.1, 'class:valid': 0.3, 'class:invalid': 0.1, 'class:boundary': 0.03, 'type:twolayer': 0.1,
+REQUIRED = {'single-fill-with-ratio': 0.05, 'exact-unity': 0.2, 'deactivated-molecule': 0.1, 'class:valid': 0.3, 'class:invalid': 0.1, 'class:boundary': 0.03, 'type:twolayer': 0.1,
             'type:power': 0.1, 'mode:ktables': 0.07, 'fill>=3': 0.1}
 # coverage-guided extra (thorough tier): pure-Python taurex modules on this property's path, instrumented by atheris
 FUZZ = {'include': ['taurex.data.profiles.chemistry', 'taurex.util.util'], 'runs': 20000, 'workers': 4}
@@ -76,6 +76,7 @@ def _case(draw):
             'lpmax': draw(st.floats(3.0, 8.0)), 'decades': draw(st.floats(1.0, 12.0)),
             'T': draw(st.lists(st.floats(100.0, 3000.0), min_size=2, max_size=4)),
             'exact_unity': draw(st.sampled_from([0, 1, 0, 2, 3, 0, 4])),
+            'single_ratio': draw(st.sampled_from(['default', None, 0.4, 'default'])),
             'deactivate': draw(st.sampled_from([[], [], [0], [1, 2]]))}
 
 
@@ -230,8 +231,14 @@ def check(case):
             OpacityCache().add_opacity(synth.SynthOpacity(m, [100.0, 200.0], [1000.0], [1e3], tab))
     try:
         ratio = list(case['ratios'])
-        chem = cut(out, 'construct', TaurexChemistry, fill_gases=list(case['fill']),
-                   ratio=(ratio if len(ratio) != 1 else ratio[0]) if ratio else 0.0)
+        kw_ = {'ratio': (ratio if len(ratio) != 1 else ratio[0]) if ratio else 0.0}
+        if len(case['fill']) == 1 and case.get('single_ratio') is not None:
+            # a single fill gas takes the whole remainder whatever the (unused) ratio argument says: left at its default
+            # (0.17567) or given as a number
+            out.cls('single-fill-with-ratio')
+            kw_ = {} if case['single_ratio'] == 'default' else {'ratio': case['single_ratio']}
+        chem = cut(out, 'construct', TaurexChemistry, fill_gases=(list(case['fill']) if case.get('single_ratio') != 'default' or len(case['fill']) != 1
+                                                                 else case['fill'][0]), **kw_)
         scaled = []
         for g in case['traces']:
             obj, ctrl = make_gas(g, f, P)
